@@ -42,6 +42,10 @@ def run(cx):
     cx.rule("C14.R2", "K5", "JS -> JSON: every JS type has an arm; Int / Float / BigInt are read with as_int / as_float / to_i64 without narrowing")
     cx.rule("C14.R3", "K7", "template patterns: `{{..}}` inside a string cannot match across a closing `}}`; the whole-string pattern is anchored")
     cx.rule("C14.R4", "E3", "fill_params: typed value iff one template spans the whole string; strings without templates are returned unchanged")
+    cx.rule("C14.R5", "E3", "an output that is exactly one template yields what the template evaluated to - null included: the look-up of a same-named variable is for the declared placeholder `k:` only")
+    from rules.c07 import fill_outputs_declared_null
+    fill_outputs_declared_null(cx, "C14.R5")
+    cx.floor("C14.R5", 1)
     m = cx.m
     pa = Prov(m, "alias")
     pv = Prov(m, "value")
